@@ -4,6 +4,7 @@ C09.a field agreement between the item parser and serialiser                 (sh
 C09.b parsed items are immutable; the rebuild appends original objects and constructs none; who may construct items
 C09.c emitted PUSH values are rendered canonically from an integer in [0, 2^256)  (value range: C03.b)
 C09.d contract-level fields: the output contract starts from a deep copy and only code fields are replaced
+C09.e containers handed out per loop iteration are fresh
 """
 import ast
 
